@@ -924,8 +924,6 @@ func (it *item) classify(cuts []int) {
 	}
 }
 
-var quickTier = lib.Tier() != "thorough"
-
 var countOnly = os.Getenv("C11_COUNT") != "" // development aid: enumerate the space without executing it
 
 func (it *item) one(cuts []int) {
@@ -987,8 +985,8 @@ func (it *item) run(maxExhaustive, maxMsgs int, deadline time.Time, timedOut *in
 		lib.Cuts(L, -1, func(c []int) { it.one(c) })
 	default:
 		radius := 2
-		if quickTier && len(it.cfg.msgs) >= maxMsgs {
-			radius = 1 // quick tier, longest sequences: a narrower neighbourhood (thorough uses 2 everywhere)
+		if len(it.cfg.msgs) >= maxMsgs {
+			radius = 1 // the longest sequences of the tier: a narrower neighbourhood
 		}
 		pos := it.b.positions(radius)
 		buf := make([]int, 0, 3)
@@ -1016,9 +1014,10 @@ func (it *item) run(maxExhaustive, maxMsgs int, deadline time.Time, timedOut *in
 	}
 }
 
-// maxCutsLong is the cut budget of a stream too long for all 2^(L-1) cut sets: 3 cuts, but 2 for the longest
-// sequences of the tier (their position sets are the largest and every compressed message costs the adapter
-// a fresh ~1 MB compressor).
+// maxCutsLong is the cut budget of a stream too long for all 2^(L-1) cut sets: 3 cuts, but 2 (over a narrower
+// position set, see run) for the longest sequences of the tier: their position sets are the largest and
+// every compressed message costs the adapter a fresh ~1 MB compressor. What quick leaves out (2-message
+// sequences with 3 cuts and the wider neighbourhood, large messages in longer sequences) thorough covers.
 func maxCutsLong(nmsgs, maxMsgs int) int {
 	if nmsgs >= maxMsgs {
 		return 2
@@ -1444,7 +1443,7 @@ func main() {
 	}
 	bigNote := ""
 	if tier != "thorough" {
-		bigNote = " (quick: the 70000-byte message only in single-message sequences; +-1 instead of +-2 for 2-message sequences)"
+		bigNote = " (quick: the 70000-byte message only in single-message sequences)"
 	}
 	rep.Coverage["violating_cases_per_signature"] = counts
 	rep.Coverage["traces_validated_against_impl"] = rep.Counter("evaluations")
@@ -1456,7 +1455,7 @@ func main() {
 		"states = distinct stream configurations executed, transitions = Header/Data calls made on the real adapter; a case is non-trivial when the stream is gRPC, " +
 		"has at least one message and at least one DATA frame boundary falls strictly inside a message frame (inside its 5-byte prefix or inside its payload), i.e. reassembly across frames is required"
 	rep.Coverage["bounds"] = fmt.Sprintf("message sequences of length 0..%d over sizes %v x compressed flag per message; encodings %v; END_STREAM on %v (zero-message streams: %v); both directions; content-type application/grpc and application/json (sequences of <=1 message also application/grpc+proto, a gRPC content-type, and application/grpc-web, not one); "+
-		"all 2^(L-1) cut sets for streams of L<=%d bytes, for longer streams all cut sets with <=3 cuts (<=2 cuts for sequences of %d messages) over the position set {prefix start, prefix end, message end}+-2 and all multiples of 16384, plus the cut set of all multiples of 16384%s; "+
+		"all 2^(L-1) cut sets for streams of L<=%d bytes, for longer streams all cut sets with <=3 cuts over the position set {prefix start, prefix end, message end}+-2 and all multiples of 16384 (sequences of %d messages: <=2 cuts and +-1), plus the cut set of all multiples of 16384%s; "+
 		"multi-stream histories on one factory: %d stream types (content-type grpc/json x %d bodies x %d END_STREAM placements x 2 directions, fixed fragmentation {2, L-1}): all %d ordered pairs x all interleavings of their calls, all %d ordered triples run one after the other",
 		maxMsgs, sizes, encNames, plNames[:3], []string{plNames[plSeparate], plNames[plHeadersOnly], plNames[plTrailers]}, maxEx, maxMsgs, bigNote, len(alpha), len(alpha)/(4*len(histPls(tier))), len(histPls(tier)), len(alpha)*len(alpha), len(alpha)*len(alpha)*len(alpha))
 	rep.Assumptions = []string{
